@@ -2,6 +2,7 @@
 from ..core import hyp
 from . import solve_engine as E
 from . import c04
+from . import c17
 
 PROPERTY = "C02"
 LEVEL = "exploration"
@@ -14,7 +15,8 @@ RULE = ("cases = generated flat constraint programs (1-4 scalar/enum fields of w
         "family takes list programs (C04's generator without random-size lists, every foreach carrying an if/else-if/else "
         "chain whose conditions mix non-random scalars, the foreach index, random scalars and elements - the conditions "
         "the library folds to constants before solving) and judges SolveFailure / return / other exception against the "
-        "enumerated solution set over scalar and element values. "
+        "enumerated solution set over scalar and element values; a fourth family makes the outer call after pre_randomize has "
+        "itself randomized the random sub-object (nested call), which must not change what the outer call may return. "
         "non-trivial = at least one call returned and was checked AND (small domain: satisfiable with the solution set "
         "a proper subset of the value space | wide: a probe ran); distinct = distinct canonical program+calls")
 ASSUMPTIONS = [
@@ -31,6 +33,7 @@ def shards(tier):
     out = [{"kind": "enum", "i": i, "n": per} for i in range(n)]
     out += [{"kind": "wide", "i": i, "n": per} for i in range(4 if tier == "quick" else 8)]
     out += [{"kind": "foreach", "i": i, "n": 90 if tier == "quick" else 2500} for i in range(6 if tier == "quick" else 8)]
+    out += [{"kind": "nested", "i": 0, "n": 60 if tier == "quick" else 2000}]
     return out
 
 
@@ -53,6 +56,18 @@ def run_foreach(case):
     return out, info
 
 
+def run_nested(case):
+    vios, info = c17.run_nested(case)
+    return [dict(v, property=PROPERTY) for v in vios if v["kind"] in C02_KINDS], info
+
+
+def body_nested(case, acc):
+    vios, info = run_nested(case)
+    acc.case(case, info.get("nested_calls", 0) > 0, sample=c17.NESTED_SRC % {"k0": case["k0"], "lo": case["lo"], "lim": case["lim"]})
+    acc.label("family:outer call after a nested randomize in pre_randomize")
+    return vios
+
+
 def body_foreach(case, acc):
     vios, info = run_foreach(case)
     folds = sum(1 for s in case["prog"]["classes"][0]["blocks"][0]["stmts"] if s[0] == "foreach" and any(b[0] == "if" for b in s[4]))
@@ -65,6 +80,8 @@ def body_foreach(case, acc):
 def body(case, acc):
     if case.get("mode") == "foreach":
         return body_foreach(case, acc)
+    if case.get("nested_call"):
+        return body_nested(case, acc)
     vios, info = E.run_case(case, acc, WANT)
     if case["mode"] == "enum":
         nt = info.get("returned", 0) > 0 and 0 < info.get("nsol", 0) < info.get("space", 0)
@@ -76,12 +93,14 @@ def body(case, acc):
 
 
 def run_shard(spec, seed, tier, acc):
-    strat = E.enum_cases() if spec["kind"] == "enum" else E.wide_cases() if spec["kind"] == "wide" else foreach_cases()
+    strat = {"enum": E.enum_cases, "wide": E.wide_cases, "foreach": foreach_cases, "nested": c17.nested_cases}[spec["kind"]]()
     hyp.drive(strat, body, seed, spec["n"], acc, shrink=True)
 
 
 def replay(case):
     if case.get("mode") == "foreach":
         return run_foreach(case)[0]
+    if case.get("nested_call"):
+        return run_nested(case)[0]
     vios, _ = E.run_case(case, None, WANT)
     return vios
